@@ -16,3 +16,14 @@ def rdPayObs : Rd PayObs := do
     pure { panicked := false, frags := frags, inputSame := a, overlap := b, fragsStable := c, twinSame := d }
   | _ => Rd.fail
 end Rtp.Proto
+
+namespace Rtp.Proto
+open Rtp Rtp.Pred
+
+/-- `<n> (<mtu> <obytes>)*` — a history of Payload calls -/
+def rdCalls : Rd (List (UInt16 × Option Bytes)) :=
+  Rd.list (do let m ← Rd.u16; let b ← Rd.obytes; pure (m, b))
+
+/-- `<n> PayObs*` -/
+def rdPayObsList : Rd (List PayObs) := Rd.list rdPayObs
+end Rtp.Proto
